@@ -40,10 +40,10 @@ CHECKS.update({
          "Thousands of driver calls inside histories that share one transposition table (same game in playing order, siblings, text twins differing only in rights/ep, shallower-after-deeper limits, stops, resets); every announced move is checked for legality by the independent oracle, in-process and through `bestmove` lines of the binary.",
          "Trusted: " + ORACLE + ". A hash collision between two generated roots would be needed for a wrong cached move; not forced here."),
  "C07": ("fault_enumeration", "fault injection: the stop flag is flipped by a cfg hook at every node-entry poll index of small searches (stratified beyond), result checked against the oracle; UCI go+stop with the search-thread start delayed", "7/C07",
-         "For searches of depth 1-3 whose undisturbed run has at most ~1200 (quick) / 4000 (thorough) polls EVERY stop point is tried; larger searches use a ladder of stop points. The verdict is on poll counts (logical time), never wall-clock.",
+         "For searches of depth 1-3 whose undisturbed run has at most ~1200 (quick) / 4000 (thorough) polls EVERY stop point is tried; larger searches use a ladder of stop points. After every fifth stop point all positions one move further are searched on the table the interrupted search left behind. The verdict is on poll counts (logical time), never wall-clock.",
          "The flag is only read at the node-entry poll (hook sits directly before it). Trusted: " + ORACLE),
  "C08": ("exploration", "gauged runs: iteration/poll gauges decide 'never deeper than N' logically; all (M,N) limit pairs on one table; tiny endings to depth 255 and unlimited under a poll budget; release and debug-assertions builds", "7/C08",
-         "All ordered pairs (search to M, then limit N) on one table for random roots; limits up to 255 and unlimited runs on tiny endings where depth really gets past 33; a node expanded in an iteration deeper than N is the violation and ends the run, so non-termination is decided without a wall clock.",
+         "All ordered pairs (search to M, then limit N) on one table for random roots; limits up to 255 and unlimited runs on tiny endings where depth really gets past 33; a node expanded in an iteration deeper than N is the violation and ends the run, so non-termination is decided without a wall clock. Tiny endings are also searched at the end of a 398-ply game record with the state-stack gauge armed, and `go depth N` combined with a time budget is checked on the real binary through its `info depth` lines.",
          "'As long as it is left running' is restated as: until it ends by itself or a poll budget (2.5M quick / 40M thorough polls) is reached."),
  "C09": ("exploration", "reference-model monitor: table-less engine search (table wiped at every poll by a cfg hook) vs exhaustive unpruned negamax on the same generator/evaluation", "7/C09",
          "Thousands of (root, depth 1-4, fresh/pre-filled history) cases; the reference has no windows, ordering or table. Scores compared after clamping the mate range; skipped cases are counted by reason.",
@@ -55,10 +55,10 @@ CHECKS.update({
          "Thousands of clock/increment/movetime combinations incl. the whole underflow band and boundary values, both sides to move, release and debug-assertions binaries; the `info time` value must be a finite non-negative integer not above the time available; short budgets are also waited for.",
          "`go` with clocks but no increments computes no budget (outside the quantifier)."),
  "C14": ("fault_enumeration", "trace checker: sequential session model replayed over the stdin/stdout history of the real binary; delays injected at five named schedule points (cfg hooks); lost stops decided on hook event order", "7/C14",
-         "Directed scenarios for every ordering named in the property x delays {0,2,20,150} ms, plus random scripts with the GUI pattern (next position+go the moment bestmove is received), 16 sessions in parallel; exactly-once bestmove, whole-line protocol tokens, readyok during search, no panic, exit 0.",
+         "Directed scenarios for every ordering named in the property x delays {0,2,20,150} ms, plus random scripts with the GUI pattern (next position+go the moment bestmove is received), 16 sessions in parallel; exactly-once bestmove, whole-line protocol tokens, readyok during search, no panic, exit 0. The evidence lists the distinct orders in which the three threads were actually observed to pass the hook points (44 in a quick run).",
          "Interleavings explored = those reachable by stretching the five named points (+ OS noise); absence of output counts only when reproduced in an isolated re-run."),
  "C15": ("exploration", "debug-assertions (unsafe-precondition) build + capacity gauges (cfg hooks abort before an unchecked push at capacity) under boundary-seeking workloads; Miri on small workloads in thorough", "7/C15",
-         "Hill-climb to maximal mobility over reader-accepted positions, 398-ply games followed by searches to the depth cap, the real self-play loop with deterministic per-move poll budgets and on the binary, every accepted mutant FEN; high-water marks of both unchecked buffers are reported.",
+         "Hill-climb to maximal mobility over reader-accepted positions, 398-ply games followed by searches to the depth cap, the real self-play loop with deterministic per-move poll budgets and on the binary, every accepted mutant FEN, over-long game records (up to 1000 plies, also followed by an illegal move) and 61k hostile move strings on the debug-assertions binary; high-water marks of both unchecked buffers are reported.",
          "ASan/valgrind are blind to these intra-object overflows (measured); the checked build and the gauges are the detectors."),
  "C17": ("exploration", "classification monitor: mutated FEN strings classified by a strict independent grammar (must-accept / must-reject / don't-care), reader outcome compared; panics caught in worker subprocesses; command level on the real binary", "7/C17",
          "Hundreds of thousands of strings from 21 mutation operators over all fields of well-formed renderings (4-6 fields, both en-passant conventions); must-accept strings must import as exactly the described position with its legal moves, must-reject strings must be refused, nothing may crash; release and debug-assertions builds.",
@@ -67,7 +67,7 @@ CHECKS.update({
          "All PV lines printed during the C06-style shared-table histories (in-process workers and UCI sessions) are replayed from their root through the independent rules.",
          "Trusted: " + ORACLE),
  "C19": ("exploration", "differential monitor: byte equality of complete stdout transcripts of the real binary across perturbed runs (taskset, nice, ASLR off, padded environment, delays, 16-way load, pre-history + ucinewgame)", "7/C19",
-         "Each (root, depth) reference transcript is compared with seven perturbed runs including the segment after `ucinewgame` following arbitrary pre-histories.",
+         "Each (root, depth) reference transcript is compared with a dozen perturbed runs including the segment after `ucinewgame` following arbitrary, related, timed and interrupted (`go infinite` still running) pre-histories; a fixed-depth `go` must not arm a timer (transcript + hook event log).",
          "Hardware and allocator cannot be varied in this sandbox."),
 })
 
